@@ -36,6 +36,7 @@ let flush_forest (units : (n * n * n * pdie list) list) =
       (List.rev units) in
   Printf.printf "RAWUNITS %s\n" (list_n (List.map (fun u -> u.ForestM.u_off) (ForestM.raw_units f)));
   Printf.printf "COOKEDUNITS %s\n" (list_n (List.map (fun u -> u.ForestM.u_off) (ForestM.cooked_units f)));
+  Printf.printf "WALK %s\n" (list_n (List.map ForestM.d_off (IterM.walk_all f)));
   List.iter (print_row "RAW") (ForestM.raw_rows f);
   List.iter (print_row "COOKED") (ForestM.cooked_rows f);
   (* what the model of find_attribute (FindAttr.v) finds for a few attribute names on every stored DIE *)
